@@ -653,6 +653,13 @@ def r8(prog, ev, rep):
             body = ev.apply(c, [Tm("param", (85, "expr"))])
             if body.k == "call" and body.a[0] == M + "FilterAtom::" + ctor and body.a[1] == Tm("param", (85, "expr")):
                 nt = body.a[2]
+                from_pair = False
+                if nt.k == "field" and str(nt.a[1]).isdigit():
+                    # the flag is a component of what a scanning helper returned
+                    r_ = _pair_component(ev, nt.a[0], int(nt.a[1]))
+                    if r_ is None:
+                        continue        # unreadable here: reported as such below
+                    nt, from_pair = r_, True
                 alts_ = set()
                 for x in (nt.a if nt.k == "phi" else (nt,)):
                     alts_.add(str(x))
@@ -660,6 +667,13 @@ def r8(prog, ev, rep):
                 ok = ("false" in alts_ and "true" in alts_ and len([a for a in alts_ if not a.startswith("loopvar")]) == 2)
                 if not ok:
                     why = "`not` is %s: it must be false unless a not_op child is present" % sorted(alts_)
+                elif from_pair:
+                    helpers = sorted({x.a[0] for x in subterms(ev.summary(fa)) if x.k == "call" and x.a[0] in prog.bodies
+                                      and x.a[0].startswith("crate::parser::") and not x.a[0].startswith(M)
+                                      and any(y.get("k") == "Assign" for y in T.walk(prog.bodies[x.a[0]]["thir"]["root"]))})
+                    ok = all(_true_only_under_not_op(prog, h) for h in helpers) and bool(helpers)
+                    if not ok:
+                        why = "`not = true` is not guarded by Rule::not_op in %s" % [h.rsplit("::", 1)[1] for h in helpers]
                 else:
                     ok = _not_set_under_not_op(prog, fa, rule)
                     if not ok:
